@@ -1,7 +1,7 @@
 import Driver.Loop
 import Driver.C01
 import Driver.C02
-import Driver.C12Mon
+import Driver.C12
 import Driver.Flow
 import Driver.C14
 import Driver.C05Mon
@@ -34,7 +34,7 @@ def dispatch (st : DState) (prop : String) (l : Line) : DState × String :=
   match prop with
   | "C01" => (st, Drv.C01.step l)
   | "C02" => (st, Drv.C02.step l)
-  | "C12" => (st, Drv.C12.step l)
+  | "C12" => (st, Drv.C12.stepFull l)
   | "C20" => (st, Drv.C20.step l)
   | "C11" => (st, Drv.C11.step l)
   | "C04" => let (s, r) := Drv.Flow.step "C04" st.c04 l; ({ st with c04 := s }, r)
